@@ -1313,4 +1313,40 @@ theorem dashedName_ends_alnum {n : Tok} (h : pyIdent n = true) :
   rw [dashedName_eq_translate]
   exact translate_ends_alnum (pyIdent_chars h)
 
+/-! ## the tables of a context do not depend on the name it is bound under -/
+
+/-- two contexts hold the same arguments and the same flag / inverse / positional tables -/
+def SameTables (c c' : Ctx) : Prop :=
+  c.args = c'.args ∧ c.flags = c'.flags ∧ c.inverse = c'.inverse ∧ c.positional = c'.positional
+
+theorem push_sameTables {c c' : Ctx} (sp : ArgSpec) (h : SameTables c c') : SameTables (c.push sp) (c'.push sp) := by
+  rcases h with ⟨h1, h2, h3, h4⟩
+  simp only [SameTables, Ctx.push, h1, h2, h3, h4, and_self]
+
+theorem stepOK_sameTables {c c' : Ctx} {sp : ArgSpec} (h : SameTables c c') : StepOK c sp ↔ StepOK c' sp := by
+  rcases h with ⟨h1, h2, h3, _⟩
+  have ht : c.taken = c'.taken := by simp [Ctx.taken, h1]
+  have hc : c.inverseClash sp = c'.inverseClash sp := by simp [Ctx.inverseClash, Ctx.inverseNames, h3]
+  have he : c.inverseExists sp = c'.inverseExists sp := by simp [Ctx.inverseExists, Ctx.flagNames, h2]
+  constructor
+  · rintro ⟨a, b, d, e⟩; exact ⟨a, ht ▸ b, hc ▸ d, he ▸ e⟩
+  · rintro ⟨a, b, d, e⟩; exact ⟨a, ht ▸ b, hc ▸ d, he ▸ e⟩
+
+theorem stepsOK_sameTables : ∀ {sps : List ArgSpec} {c c' : Ctx}, SameTables c c' →
+    (StepsOK c sps ↔ StepsOK c' sps) ∧ SameTables (c.pushAll sps) (c'.pushAll sps)
+  | [], _, _, h => ⟨Iff.rfl, h⟩
+  | sp :: r, c, c', h => by
+    have ih := stepsOK_sameTables (sps := r) (push_sameTables sp h)
+    refine ⟨?_, ih.2⟩
+    simp only [StepsOK]
+    rw [stepOK_sameTables h, ih.1]
+
+theorem ofSpecsChecked_name_irrelevant {nm nm' : Option Tok} {al al' : List Tok} {sps : List ArgSpec} {c : Ctx}
+    (h : Ctx.ofSpecsChecked nm al sps = .ok c) :
+    ∃ c', Ctx.ofSpecsChecked nm' al' sps = .ok c' ∧ SameTables c c' := by
+  unfold Ctx.ofSpecsChecked at h ⊢
+  have h0 : SameTables (Ctx.empty nm al) (Ctx.empty nm' al') := ⟨rfl, rfl, rfl, rfl⟩
+  have hs := stepsOK_sameTables (sps := sps) h0
+  have h' := foldChecked_ok_iff.1 h
+  exact ⟨_, foldChecked_ok_iff.2 ⟨hs.1.1 h'.1, rfl⟩, h'.2 ▸ hs.2⟩
 end Inv
